@@ -97,6 +97,7 @@ ASSUMPTIONS = [
     "two user messages in one call (Colang 2.x): a flow that waits for any utterance takes the FIRST message of the call; for the second one only flows that wait for exactly its text are required to hear it (a message no flow hears gets no rails and reaches nothing: counted, label second-heard-by-no-flow). The reply of such a call is the list of all bot utterances: only the presence of the refusal / rail exception of a rejected message is asserted, and that nothing else is in it when every message was rejected",
     "two user messages in one call are generated with rails that are given the text as a parameter (hand-written `flow input rails $input_text`, check rails) and with flows that pass on the transcript they matched: the global `$user_message` holds the NEWEST utterance from the moment it arrives, before its rails have run - rails that read the global (config.yml style, the shipped `self check input`) and flows that read it after an earlier message passed get the newer text on the unchanged tree (reported to the coordinator as an observation; not generated, so not judged)",
     "a turn that needs more than 100 internal events makes the Colang 1.0 runtime raise `Too many events.` (safety limit); such cases (many rails + long routes) are counted as skipped, not judged",
+    "two messages in one call (Colang 2.x): when an output rail of that turn does not accept, the refusal an input rail utters for a rejected message is itself judged by the output rails (and a parallel bot message meets the open finding C02-F23); what the reply then holds is not asserted by C01 (label two-utterances:refusal-not-judged...), the rail-chain, order and no-LLM-call clauses still are",
 ]
 
 
@@ -832,7 +833,15 @@ def _judge_burst(cfg, spec, o, t, what):
             raise Violation("dialog-step-after-block", f"{what}: a dialog action ran although every message of the call was rejected", {"turn": t})
     text = pipeline.reply_text(o)
     lines = [x.strip() for x in text.split(chr(10)) if x.strip()]
-    for m, i, copies in refused:
+    # In Colang 2.x a refusal uttered by an input rail is itself a bot message that the output rails judge (`_bot_say`); when an
+    # output rail of this turn does not accept, what becomes of the refusal is the output rails' business (C02), not asserted here
+    out_interferes = bool(cfg.get("out")) and any(v != "accept" for v in (spec.get("out") or []))
+    if out_interferes and refused:
+        labels.append("two-utterances:refusal-not-judged(output-rails-of-the-turn-do-not-all-accept)")
+        refused_for_reply = []
+    else:
+        refused_for_reply = refused
+    for m, i, copies in refused_for_reply:
         kind = cfg["in"][i]
         if cfg["exc"]:
             want, typ = block_message("in", i, kind), exc_type(cfg, i)
@@ -843,7 +852,7 @@ def _judge_burst(cfg, spec, o, t, what):
             room = sum(c for _m, k, c in refused if refusal_text("in", k, cfg["in"][k]) == want)
             if not 1 <= lines.count(want) <= room:
                 raise Violation("refusal-missing", f"{what}: message {m['user'][:60]!r} was rejected by in{i}: its refusal {want!r} must be in the reply (once per pass of the chain at most), got {o['reply']!r}"[:700], {"turn": t})
-    if refused and not passed:
+    if refused_for_reply and not passed:
         allowed = set() if cfg["exc"] else {refusal_text("in", i, cfg["in"][i]) for _m, i, _c in refused}
         if any(x not in allowed for x in lines):
             raise Violation("refusal-missing" if not cfg["exc"] else "llm-text-after-block" if fakes.lineage(text) else "dialog-text-after-block", f"{what}: every message of the call was rejected, the reply must hold nothing but the refusals / rail exceptions, got {o['reply']!r}"[:700], {"turn": t})
